@@ -272,8 +272,9 @@ def mp_value_predicates(values, boundary):
 
 def mp_refusal_predicates(values, boundary):
     """encode_multipart documents a ValueError when a value is the boundary line itself; '$' also accepts a final LF."""
-    if boundary and any(v in (b"--" + boundary, b"--" + boundary + b"\n") for v in values):
-        return ["multipart-value-equal-to-boundary-line-refused"]
+    for b in {boundary, boundary.strip(b'"')} if boundary else ():  # boundary as declared / without quoted-string quotes
+        if b and any(v in (b"--" + b, b"--" + b + b"\n") for v in values):
+            return ["multipart-value-equal-to-boundary-line-refused"]
     return None
 
 
